@@ -179,7 +179,7 @@ def run(ctx):
     ctx.extra["op_kinds"] = kinds
     # direct constructor routes and statelessness
     for name, fn in (("plain-bitarray", plain_bitarray_case), ("order-state", order_state_case), ("repeat", repeat_case),
-                     ("option-history", option_history_case), ("vm-stack-inputs", vm_stack_case)):
+                     ("option-history", option_history_case), ("vm-stack-inputs", vm_stack_case), ("hashmap-state", hashmap_state_case)):
         for _ in range(ctx.n(30, 300)):
             r = core.call_impl(lambda _: fn(rng), None)
             if r != "ok":
@@ -260,6 +260,28 @@ def option_history_case(rng):
     return "ok"
 
 
+def hashmap_state_case(rng):
+    """dictionary objects created one after the other do not share entries; serialising one leaves the others alone"""
+    from pytoniq_core.boc.hashmap.hashmap import HashMap
+    n = rng.choice([8, 32, 256])
+    a = HashMap(n).with_uint_values(16)
+    keys_a = sorted({rng.getrandbits(n) for _ in range(rng.choice([1, 3]))})
+    for k in keys_a:
+        a.set_int_key(k, k % 65536)
+    ca = a.serialize()
+    b = HashMap(n).with_uint_values(16)
+    if b.serialize() is not None:
+        return "a fresh HashMap is not empty after another one was filled"
+    kb = rng.getrandbits(n)
+    b.set_int_key(kb, 7)
+    back = HashMap.parse(b.serialize().begin_parse(), n, value_deserializer=lambda v: v.load_uint(16))
+    if back != {kb: 7}:
+        return f"a second HashMap holds {len(back)} entries after one insertion"
+    if a.serialize().hash != ca.hash:
+        return "filling a second HashMap changed the first one"
+    return "ok"
+
+
 def vm_stack_case(rng):
     """serialising a TVM stack any number of times gives the same cell and leaves the caller's values (nested tuples,
     cells, slices) untouched"""
@@ -302,7 +324,8 @@ def replay(ctx, obj):
         v, bad = run_history(c["ops"])
         return bad
     fn = {"plain-bitarray": plain_bitarray_case, "order-state": order_state_case, "repeat": repeat_case,
-          "option-history": option_history_case, "vm-stack-inputs": vm_stack_case}[c["special"]]
+          "option-history": option_history_case, "vm-stack-inputs": vm_stack_case,
+          "hashmap-state": hashmap_state_case}[c["special"]]
     for _ in range(50):
         r = core.call_impl(lambda _: fn(ctx.rng), None)
         if r != "ok":
